@@ -289,7 +289,7 @@ def run(ctx):
 
     quick = ctx.tier == "quick"
     rng = ctx.rng
-    n_random = 6 if quick else 20
+    n_random = 4 if quick else 20
 
     # ------------------------------------------------------------------ plans (corpus first)
     plans = []
@@ -305,7 +305,9 @@ def run(ctx):
         for k in range(LO, HI + 1):
             p = Plan(f"fresh:{var}={k}", True)
             ew, es = (k, None) if var == "w" else (None, k)
-            p.steps = [{"ew": ew, "es": es, "path": "df"}, {"ew": ew, "es": es, "path": "csv"}]
+            p.steps = [{"ew": ew, "es": es, "path": "df", "max_singles": 3 if quick else 8}]
+            if k % 2 == 0 or not quick:
+                p.steps.append({"ew": ew, "es": es, "path": "csv", "max_singles": 1 if quick else 4})
             plans.append(p)
     p = Plan("fresh:unset", True)
     p.steps = [{"ew": None, "es": None, "path": "df"}, {"ew": None, "es": None, "path": "csv"}]
@@ -318,22 +320,22 @@ def run(ctx):
         joint.add((cw, cs))
     for (jw, js) in sorted(joint):
         p = Plan(f"fresh:w={jw},s={js}", True)
-        p.steps = [{"ew": jw, "es": js, "path": rng.choice(("df", "csv"))}]
+        p.steps = [{"ew": jw, "es": js, "path": rng.choice(("df", "csv")), "max_singles": 2 if quick else 6}]
         plans.append(p)
     # sequences within one process
     for var in ("w", "s"):
         p = Plan(f"sequence:{var}", False)
         for k in range(LO, HI + 1):
             ew, es = (k, None) if var == "w" else (None, k)
-            p.steps.append({"ew": ew, "es": es, "path": "df"})
-            p.steps.append({"ew": None, "es": None, "path": "df"})
+            p.steps.append({"ew": ew, "es": es, "path": "df", "max_singles": 1 if quick else 3})
+            p.steps.append({"ew": None, "es": None, "path": "df", "max_singles": 0 if quick else 1})
         plans.append(p)
     for i in range(2 if quick else 8):
         p = Plan(f"sequence:random{i}", False)
         for _ in range(40 if quick else 120):
             ew = rng.choice([None, None, rng.randint(LO, HI), rng.choice([6, 10, 20, 28, 38, -1, 39, 45, 5])])
             es = rng.choice([None, None, rng.randint(LO, HI), rng.choice([6, 10, 15, -1, 5, 16])])
-            p.steps.append({"ew": ew, "es": es, "path": rng.choice(("df", "csv"))})
+            p.steps.append({"ew": ew, "es": es, "path": rng.choice(("df", "csv")), "max_singles": 1 if quick else 3})
         plans.append(p)
 
     # ------------------------------------------------------------------ model: configuration outcome of every step
@@ -423,6 +425,18 @@ def run(ctx):
                     else:
                         singles.append({"rows": [(ci, ra, rb)], "ops": ["+"], "path": st["path"], "ci": ci})
                         singles.append({"rows": [(ci, ra, rb)], "ops": ["-"], "path": st["path"], "ci": ci})
+            # volume control: every non-value outcome needs its own run(); keep a few per configuration
+            cap = st.get("max_singles", 3)
+            if not batch and not fbatch:
+                cap = max(cap, 1)
+            kept, seen_ci = [], []
+            for sg_ in singles:
+                if sg_["ci"] not in seen_ci:
+                    if len(seen_ci) >= cap:
+                        continue
+                    seen_ci.append(sg_["ci"])
+                kept.append(sg_)
+            singles = kept
             runs = []
             for bt in (batch, fbatch):
                 if bt:
